@@ -218,7 +218,10 @@ class Request(HTTPConnection):
         This can always be called, regardless of whether you use form or not.
         """
         if "form" in self.__dict__ and self.__dict__["form"].done():
-            await (await self.form).aclose()
+            form = self.__dict__["form"]
+            if form.cancelled() or form.exception() is not None:
+                return  # parsing failed: there is nothing to close
+            await form.result().aclose()
 
     async def is_disconnected(self) -> bool:
         """
